@@ -1,0 +1,79 @@
+//go:build verif
+
+package vaxis
+
+import (
+	"git.sr.ht/~rockorager/vaxis/ansi"
+)
+
+// Verification hooks for properties C03 (input loop) and C10 (concurrency).
+// Add-only, read-only apart from VerifC03SetReqCursorPos; compiled only with -tags verif.
+
+// VerifC03ParseMouse exposes parseMouseEvent.
+func VerifC03ParseMouse(seq ansi.CSI) (Mouse, bool) { return parseMouseEvent(seq) }
+
+// VerifC03DecodeKey exposes decodeKey (used as the opaque key-token oracle by C03).
+func VerifC03DecodeKey(seq ansi.Sequence) Key { return decodeKey(seq) }
+
+// VerifC03HandleSequence calls handleSequence on the caller's goroutine.
+func (vx *Vaxis) VerifC03HandleSequence(seq ansi.Sequence) { vx.handleSequence(seq) }
+
+// VerifC03State is a read-only snapshot of the state handleSequence reads and writes.
+type VerifC03State struct {
+	Caps            []bool // in the order of VerifC03CapNames
+	PastePending    bool
+	ReqCursorPos    bool
+	ResizeFlag      bool
+	NextSize        Resize
+	UserCursorStyle int
+	Closed          bool
+	QueueLen        int
+	QueueCap        int
+	// lengths of chCursorPos, chSizeDone, chColor, chFg, chBg, chClipboard
+	ChanLen [6]int
+	ChanCap [6]int
+}
+
+// VerifC03CapNames lists the fields of `capabilities` in declaration order.
+var VerifC03CapNames = []string{"synchronizedUpdate", "unicodeCore", "noZWJ", "rgb", "kittyGraphics", "kittyKeyboard",
+	"styledUnderlines", "sixels", "colorThemeUpdates", "reportSizeChars", "reportSizePixels", "osc4", "osc10", "osc11",
+	"osc176", "inBandResize", "explicitWidth"}
+
+func (vx *Vaxis) VerifC03Snapshot() VerifC03State {
+	vx.mu.Lock()
+	c := vx.caps
+	ns := vx.nextSize
+	ucs := int(vx.userCursorStyle)
+	vx.mu.Unlock()
+	return VerifC03State{
+		Caps: []bool{c.synchronizedUpdate, c.unicodeCore, c.noZWJ, c.rgb, c.kittyGraphics, c.kittyKeyboard,
+			c.styledUnderlines, c.sixels, c.colorThemeUpdates, c.reportSizeChars, c.reportSizePixels, c.osc4, c.osc10, c.osc11,
+			c.osc176, c.inBandResize, c.explicitWidth},
+		PastePending:    vx.pastePending,
+		ReqCursorPos:    atomicLoad(&vx.reqCursorPos),
+		ResizeFlag:      atomicLoad(&vx.resize),
+		NextSize:        ns,
+		UserCursorStyle: ucs,
+		Closed:          vx.closed,
+		QueueLen:        len(vx.queue),
+		QueueCap:        cap(vx.queue),
+		ChanLen:         [6]int{len(vx.chCursorPos), len(vx.chSizeDone), len(vx.chColor), len(vx.chFg), len(vx.chBg), len(vx.chClipboard)},
+		ChanCap:         [6]int{cap(vx.chCursorPos), cap(vx.chSizeDone), cap(vx.chColor), cap(vx.chFg), cap(vx.chBg), cap(vx.chClipboard)},
+	}
+}
+
+// VerifC03Chans returns the reply channels so that a harness can play the requester
+// (receive) side without issuing the real queries.
+func (vx *Vaxis) VerifC03Chans() (cursorPos chan [2]int, sizeDone chan bool, color, fg, bg, clipboard chan string) {
+	return vx.chCursorPos, vx.chSizeDone, vx.chColor, vx.chFg, vx.chBg, vx.chClipboard
+}
+
+// VerifC03SetReqCursorPos sets the "cursor position requested" flag as CursorPosition does,
+// without writing the query or starting its 50 ms timer.
+func (vx *Vaxis) VerifC03SetReqCursorPos(b bool) { atomicStore(&vx.reqCursorPos, b) }
+
+// VerifC03ReportWinsize exposes reportWinsize (the chSizeDone requester).
+func (vx *Vaxis) VerifC03ReportWinsize() (Resize, error) { return vx.reportWinsize() }
+
+// VerifC03QuitChan exposes chQuit (closed by Close).
+func (vx *Vaxis) VerifC03QuitChan() chan bool { return vx.chQuit }
